@@ -2305,6 +2305,7 @@ static void check_x64(const Prog& P, JitRuntime& rt, const CpuFeatures& feat, in
     RunResult r = run_compiled(B.fn, act.mem + BUF_GUARD, in.args, t);
     out.rets[size_t(t)] = r.ret;
     if (r.sig) {
+      if (r.sig == SIGVTALRM) { snprintf(head, sizeof head, "input %d: compiled code did not terminate within 20 s of CPU time (the reference interpreter terminates)", t); fail("compiled-code-does-not-terminate", head, true); break; }
       snprintf(head, sizeof head, "input %d: compiled code raised signal %d at code offset %lld (fault address %#llx)", t, r.sig, (long long)(r.fault_rip - uint64_t(uintptr_t(B.fn))), (unsigned long long)r.fault_addr);
       fail("compiled-code-faulted", head, true); break; }
     if (!r.callee_saved_ok || !r.rsp_ok) { snprintf(head, sizeof head, "input %d: callee-saved register or stack pointer not preserved (rsp_ok=%d)", t, int(r.rsp_ok)); fail("callee-saved-not-preserved", head, true); break; }
